@@ -160,7 +160,10 @@ Proof. exact emit_region_inside. Qed.
 (* ---- refutations: the faithful model violates the full statement; each witness is replayed on
    the real library by props/C03.py (findings F4, F4b, F5, F6) ---- *)
 
-(* F4: a zero-width region rectangle (FramebufferUpdateRequest with w = 0) is counted, Raw sends nothing *)
+(* F4 (root cause repaired in /repo by d5a464d, see C03_request_never_degenerate below): a
+   zero-width region rectangle is counted, Raw sends nothing.  rfbSendFramebufferUpdate itself still
+   behaves like this for a degenerate region, hence the non-degeneracy hypothesis of the _partial
+   theorems; what changed is that a client request can no longer create such a region *)
 Theorem C03_zero_dim_refuted :
   exists region n, announce enc_Raw false 48 48 50 region 0 0 = Some (n, region, false) /\
                    emitted_len (emit_region enc_Raw false 48 48 region) = Some 0 /\ n = 1.
@@ -212,7 +215,7 @@ Theorem C03_caps_state : forall g latest c, reach g latest c -> pref_ok c /\ fla
 Proof. exact reach_ok. Qed.
 
 Example C03_caps_state_nonvacuous :
-  let g := mkCfg false true true true in
+  let g := mkCfg false true true true false in
   let c1 := fst (set_encodings g caps_init [enc_Tight; enc_LastRect; enc_RichCursor; enc_PointerPos]) in
   let c2 := fst (set_encodings g c1 [enc_NewFBSize; 12345]) in
   reach g [enc_NewFBSize; 12345] c2 /\
@@ -235,20 +238,38 @@ Theorem C03_caps_cursorpos : forall g c l,
 Proof. exact set_encodings_cursorpos_needs_shape. Qed.
 
 Example C03_caps_cursorpos_nonvacuous :
-  c_cursorpos (fst (set_encodings (mkCfg false false false false) caps_init [enc_PointerPos])) = false /\
-  c_cursorpos (fst (set_encodings (mkCfg false false false false) caps_init [enc_PointerPos; enc_XCursor])) = true.
+  c_cursorpos (fst (set_encodings (mkCfg false false false false false) caps_init [enc_PointerPos])) = false /\
+  c_cursorpos (fst (set_encodings (mkCfg false false false false false) caps_init [enc_PointerPos; enc_XCursor])) = true.
 Proof. split; reflexivity. Qed.
 
 (* F21 (finding): unlike every other capability, enableExtendedClipboard survives a SetEncodings
    that no longer names it.  Full statement "c_extclip c' = true -> In enc_ExtendedClipboard latest"
-   is refuted: *)
+   is refuted for the code as it is (g_reset_extclip = false; props/C03.py sets the flag from the
+   source text, so that the model follows the repair notes/fix_C03_3.diff when it is applied): *)
 Theorem C03_caps_extclip_refuted :
   exists g c l, c_extclip (fst (set_encodings g c l)) = true /\ ~ In enc_ExtendedClipboard l.
 Proof.
-  exists (mkCfg false false true false),
-         (fst (set_encodings (mkCfg false false true false) caps_init [enc_ExtendedClipboard])), [enc_Raw].
+  exists (mkCfg false false true false false),
+         (fst (set_encodings (mkCfg false false true false false) caps_init [enc_ExtendedClipboard])), [enc_Raw].
   split; [reflexivity|]. intros [H|[]]. discriminate.
 Qed.
+
+(* after commit d5a464d ("ignore framebuffer update requests of zero width or height"): the
+   rectangle that a FramebufferUpdateRequest adds to requestedRegion / modifiedRegion is never
+   degenerate and lies inside the framebuffer, for every 16-bit x, y, w, h (uint16 wrap-around of
+   rectSwapIfLEAndClip included).  This discharges, for client requests, the non-degeneracy
+   hypothesis of C03_update_count_partial (F4, F4b). *)
+Theorem C03_request_never_degenerate : forall fbw fbh x y w h x' y' w' h',
+  0 <= x < 65536 -> 0 <= y < 65536 -> 0 <= w < 65536 -> 0 <= h < 65536 ->
+  clip_request fbw fbh x y w h = Some (x', y', w', h') ->
+  x' = x /\ y' = y /\ 1 <= w' <= w /\ 1 <= h' <= h /\ x' + w' <= fbw /\ y' + h' <= fbh.
+Proof. exact clip_request_nondegenerate. Qed.
+
+Example C03_request_never_degenerate_nonvacuous :
+  clip_request 20 10 3 3 0 4 = None /\ clip_request 20 10 3 3 4 0 = None /\
+  clip_request 20 10 20 3 5 4 = None /\ clip_request 20 10 30000 3 5 5 = None /\
+  clip_request 20 10 19 9 100 100 = Some (19, 9, 1, 1) /\ clip_request 20 10 0 0 20 10 = Some (0, 0, 20, 10).
+Proof. exact clip_request_examples. Qed.
 
 (* ---- C03_parse_print: the strict parser inverts the printer ---- *)
 Theorem C03_parse_print_rect : forall s r k s' rest, wf_rect s r k s' ->
